@@ -3,6 +3,6 @@
 p=$1; shift
 if [ -n "$(git -C /repo status --porcelain)" ]; then echo "REFUSING: /repo has uncommitted changes (commit contract edits first)"; exit 2; fi
 git -C /repo apply $p || { echo "PATCH DOES NOT APPLY to /repo"; exit 2; }
-for prop in "$@"; do (cd /verif && ./check $prop quick 2>&1 | tail -6); done
+for prop in "$@"; do (cd /verif && bin/govc -repo /repo -prop $prop -tier quick -out /tmp/seedcheck-ev-$prop.json -known KNOWN_FINDINGS.txt -replays /tmp/seedcheck-replays 2>&1 | tail -6); done
 git -C /repo apply -R $p || echo "REVERT FAILED"
 git -C /repo status --short | head -3
